@@ -99,7 +99,7 @@ def main():
             "quick_cmd": f"./check {pid} --tier quick",
             "thorough_cmd": f"./check {pid} --tier thorough",
             "evidence_file": f"/verif/evidence/{pid}.json",
-            "replay_cmd_template": "cat {path}",
+            "replay_cmd_template": "replay/run.sh {path}",
             "engine": "pgoverify",
             "level_claimed": {"category": "proof", "text": text, "design_ref": f"DESIGN.md section 3 ({pid})"},
             "level_note": note,
